@@ -341,3 +341,36 @@ def _unwrap_label(arg):
     if a[0] == "call":
         names.append(a[1].split("::")[-1])
     return ".".join(names) or a[0]
+
+
+def r15_6(ctx):
+    """Valid counter values are never a reason to reject a FEN: the parsed counters flow into
+    nothing but the `is_err` test of their own parse."""
+    f = ctx.facts
+    b = f.body(FROM_FEN)
+    ctx.note_fn(FROM_FEN)
+    ex = Exprs(b)
+    parses = {}
+    for bb, t in b.iter_calls():
+        c = callee_of(t) or ""
+        if c.endswith("<impl str>::parse"):
+            arg = ex.call_args(bb)[0]
+            for s in subexprs(arg):
+                if s[0] == "call" and s[1].endswith("::index") and len(s[2]) == 2 and s[2][1][0] == "const" and s[2][1][1] in (4, 5):
+                    parses[ex.call_expr(t, b.term_loc(bb))] = s[2][1][1]
+    n = 0
+    from wa.expr import data_slice
+    for s in b.normal:
+        if s not in b.reachable or b.term(s)["k"] != "switch":
+            continue
+        d = ex.switch_discr(s)
+        hit = [p for p in parses if p in data_slice(ex, d)]
+        if not hit:
+            continue
+        n += 1
+        dd = strip_refs(d)
+        plain = dd[0] == "call" and (dd[1].endswith("::is_err") or dd[1].endswith("::is_ok")) and strip_refs(dd[2][0]) in parses
+        plain = plain or (dd[0] == "discr" and strip_refs(dd[1]) in parses)
+        ctx.ob("from_fen:counter-use#%d" % n, plain, b.where(b.term_loc(s)),
+               "a branch depends on the move counters through `%s`; apart from 'is it a number' no counter value may decide whether a FEN is accepted" % show_expr(d, b)[:90])
+    ctx.ob("from_fen:counter-uses", True, b.file, "%d branches depend on the parsed counters" % n, nontrivial=False)
